@@ -43,67 +43,79 @@ fn main() {
 /// see c02.rs: the lump class of sysoracle::classify() split into narrow, decidable classes
 fn reclassify_bottom(s: &mut Session, cases: &[Case]) {
     const LUMP: &str = "bottom-alignment-shrunken-frame";
-    let mut moved: Vec<String> = vec![];
-    for f in s.failures.iter_mut().filter(|f| f.class == LUMP) {
-        let narrow = if f.detail.contains("the lines printed so far are") || f.detail.contains("the first rows of the screen are") {
-            "bottom-println-text-below-padding"
-        } else {
-            let (mut empty_frame, mut kept) = (false, false);
-            if let Some(c) = cases.iter().find(|c| describe(c) == f.case) {
-                let obs = run_case(c);
-                let mut bottom = false;
-                let mut padded_frame_seen = false;
-                let mut dropped_member = false;
-                let mut member = vec![false; c.bars.len()];
-                for ((_, op), o) in c.ops.iter().zip(obs.iter()) {
-                    match op {
-                        Op::SetAlign(b) => bottom = *b,
-                        Op::Insert(_, b) => member[*b] = true,
-                        Op::Remove(b) => member[*b] = false,
-                        _ => {}
+    // keyed on the replay predicate, not on the oracle's class name: region-type failures only
+    let region_type = |c: &str| c == LUMP || c.starts_with("region-mismatch") || c == "clear-left-rows";
+    let mut moved: Vec<(String, String)> = vec![];
+    for f in s.failures.iter_mut().filter(|f| region_type(&f.class)) {
+        let log_failure = f.detail.contains("the lines printed so far are") || f.detail.contains("the first rows of the screen are");
+        let (mut empty_frame, mut kept, mut bottom_ever) = (false, false, false);
+        if let Some(c) = cases.iter().find(|c| describe(c) == f.case) {
+            let obs = run_case(c);
+            let mut bottom = false;
+            let mut padded_frame_seen = false;
+            let mut dropped_member = false;
+            let mut member = vec![false; c.bars.len()];
+            for ((_, op), o) in c.ops.iter().zip(obs.iter()) {
+                match op {
+                    Op::SetAlign(b) => {
+                        bottom = *b;
+                        bottom_ever |= *b;
                     }
-                    let painted = o.emitted.iter().any(|x| *x == TOp::Flush);
-                    let cleared = o.emitted.iter().any(|x| *x == TOp::Clear);
-                    let wrote = o.emitted.iter().any(|x| matches!(x, TOp::Str(_)));
-                    let padding = o.emitted.iter().enumerate().any(|(i, x)| {
-                        matches!(x, TOp::Line(l) if l.is_empty()) && (i == 0 || !matches!(o.emitted[i - 1], TOp::Str(_)))
-                    });
-                    if painted {
-                        // the last painted frame has padding rows (shift > 0)
-                        padded_frame_seen = bottom && padding;
-                        if padded_frame_seen && dropped_member {
-                            kept = true; // a zombie may be reaped by this padded frame
-                        }
-                        if padded_frame_seen && cleared && !wrote {
-                            empty_frame = true;
-                        }
+                    Op::Insert(_, b) => member[*b] = true,
+                    Op::Remove(b) => member[*b] = false,
+                    _ => {}
+                }
+                let painted = o.emitted.iter().any(|x| *x == TOp::Flush);
+                let cleared = o.emitted.iter().any(|x| *x == TOp::Clear);
+                let wrote = o.emitted.iter().any(|x| matches!(x, TOp::Str(_)));
+                let padding = o.emitted.iter().enumerate().any(|(i, x)| {
+                    matches!(x, TOp::Line(l) if l.is_empty()) && (i == 0 || !matches!(o.emitted[i - 1], TOp::Str(_)))
+                });
+                if painted {
+                    // the last painted frame has padding rows (shift > 0)
+                    padded_frame_seen = bottom && padding;
+                    if padded_frame_seen && dropped_member {
+                        kept = true; // a zombie may be reaped by this padded frame
                     }
-                    if let Op::Drop(b) = op {
-                        if member[*b] {
-                            dropped_member = true;
-                            if padded_frame_seen {
-                                kept = true; // reaped at the head right after a padded frame
-                            }
+                    if padded_frame_seen && cleared && !wrote {
+                        empty_frame = true;
+                    }
+                }
+                if let Op::Drop(b) = op {
+                    if member[*b] {
+                        dropped_member = true;
+                        if padded_frame_seen {
+                            kept = true; // reaped at the head right after a padded frame
                         }
                     }
                 }
             }
-            if kept {
-                "bottom-alignment-kept-rows-misplaced"
-            } else if empty_frame {
-                "bottom-alignment-empty-frame-drift"
-            } else {
-                "bottom-alignment-other"
-            }
-        };
-        f.class = narrow.to_string();
-        moved.push(narrow.to_string());
-    }
-    if !moved.is_empty() {
-        s.dist.remove(&format!("oracle_failure:{LUMP}"));
-        for m in moved {
-            s.count(&format!("oracle_failure:{m}"));
         }
+        let narrow = if !bottom_ever {
+            continue;
+        } else if log_failure {
+            "bottom-println-text-below-padding"
+        } else if kept {
+            "bottom-alignment-kept-rows-misplaced"
+        } else if empty_frame {
+            "bottom-alignment-empty-frame-drift"
+        } else if f.class == LUMP {
+            "bottom-alignment-other"
+        } else {
+            continue;
+        };
+        moved.push((f.class.clone(), narrow.to_string()));
+        f.class = narrow.to_string();
+    }
+    for (old, new) in moved {
+        let k = format!("oracle_failure:{old}");
+        if let Some(v) = s.dist.get_mut(&k) {
+            *v = v.saturating_sub(1);
+            if *v == 0 {
+                s.dist.remove(&k);
+            }
+        }
+        s.count(&format!("oracle_failure:{new}"));
     }
 }
 
